@@ -54,6 +54,13 @@ def step (_ : Unit) (op impl : String) : Unit × StepOut := Id.run do
     | some f => f.splitOn ","
     | none => []
   tags := [s!"client:{cl}", s!"version:{v}", s!"faults:{faults.length}"]
+  match ((field op "x=").getD "0,0,0,0,0").splitOn "," with
+  | [cw, one, _, bd, dgi] =>
+    if natOf cw > 0 then tags := tags ++ ["style:conn-window-limited"]
+    if natOf one > 0 then tags := tags ++ ["style:single-write"]
+    if natOf bd > 0 then tags := tags ++ ["style:blackout"]
+    if natOf dgi > 0 then tags := tags ++ ["style:dgram-interleaved"]
+  | _ => pure ()
   for f in faults do
     match f.splitOn ":" with
     | [d, i, k, _] =>
